@@ -344,6 +344,21 @@ class FaultPlan:
             return self._act(f)
         return None
 
+    def block_fn(self, task, label):
+        """kill faults addressed at='block': the k-th time the task blocks while it holds a stripe."""
+        if not self._eligible(task) or task.name == "main":
+            return False
+        idx = task.tags.get("fb", 0)
+        task.tags["fb"] = idx + 1
+        for f in self.faults:
+            if f.get("done") or f["task"] != task.name or f["at"] != "block" or f["k"] != idx or f["kind"] != "kill":
+                continue
+            f["done"] = True
+            self.fired.append(dict(kind="kill", task=task.name, site="blocked:" + str(label), k=idx, at="block",
+                                   t=task.kernel.now))
+            return True
+        return False
+
     def line_fn_fault(self, task, frame):
         if not self._eligible(task):
             return None
@@ -437,6 +452,7 @@ def run_bane(filename, cfg, sched, ch, faults=None, fill="payload", ncpu=16, cor
     k = Kernel(delay_fn=delays, max_steps=max_steps, wall_cap_s=wall_cap_s)
     plan = faults if faults is not None else FaultPlan()
     k.fault_fn = plan.fault_fn
+    k.block_fault_fn = plan.block_fn
     pick = (lambda n: ch.draw("lockpick", n)) if sched["profile"] != "canonical" else None
     sim = SimMP(k, ncpu=cfg.get("ncpu", ncpu), pick=pick)
     sandbox = _state["sandbox"]
@@ -593,6 +609,7 @@ def run_bane(filename, cfg, sched, ch, faults=None, fill="payload", ncpu=16, cor
     res.barrier_stats = [dict(b.stats) for b in sim.barriers]
     res.worker_yields = {t.name: t.tags.get("fy", 0) for t in k.tasks}
     res.worker_lines = {t.name: t.tags.get("fl", 0) for t in k.tasks}
+    res.worker_blocks = {t.name: t.tags.get("fb", 0) for t in k.tasks}
     res.first_lines = {t.name: list(t.tags.get("first_lines", ())) for t in k.tasks}
     res.yield_sites = {}
     res.ntasks = len(k.tasks)
